@@ -159,8 +159,11 @@ def run_x(ob, shard_idx: int, twin: bool, excl: list[str]) -> dict:
             message = message or f"case {fixed} not confirmed within budget"
             break
     wall = time.perf_counter() - t0
-    if verdict == "confirmed" and total_confirmed == 0:
-        verdict, message = "pre_unsat", "no case of this shard satisfies the precondition"
+    if verdict in ("confirmed", "pre_unsat") and total_confirmed == 0:
+        if excl and not twin:
+            verdict, message = "excluded", "every case of this shard lies inside a known-finding region"
+        else:
+            verdict, message = "pre_unsat", "no case of this shard satisfies the precondition"
     return {
         "engine": "X",
         "obligation": ob.name,
